@@ -1136,7 +1136,7 @@ pub fn c07() -> CheckDef {
     CheckDef {
         property: "C07",
         families: vec![
-            Family { name: "b_handshake_faults", world: "B", weight: 3, gen: c07_gen_faulty, oracles: c07_oracles, adversary: Some(c07_adv), keep_workload: false, custom: None,
+            Family { name: "b_handshake_faults", world: "B", weight: 3, gen: c07_gen_faulty, oracles: c07_oracles, adversary: Some(c07_adv), keep_workload: true, custom: None,
                 what: "1-6 clients arriving within 3 s, loss/dup/reorder aimed at SYN, SYN-ACK, ACK and error frames, forged handshake frames from spoofed client and server addresses with nonces that differ from the genuine ones, replays of genuine handshake frames up to 20 s later, incompatible configurations, wrong-version SYNs, client crash and restart on the same address, a few reliable packets per connection" },
             Family { name: "b_handshake_clean", world: "B", weight: 1, gen: c07_gen_clean, oracles: c07_oracles, adversary: None, keep_workload: false, custom: None,
                 what: "same population on a loss-free link: incompatible configurations must be refused with the matching error, compatible ones must connect and agree on sequence numbers and limits" },
